@@ -169,8 +169,10 @@ class LspServer:
         return self.notify("textDocument/didClose", {"textDocument": {"uri": uri_of(path)}})
 
     def barrier(self):
-        """A cheap request whose response proves that everything sent before has been processed."""
-        return self.request("workspace/symbol", {"query": ""})
+        """A cheap request whose response proves that everything sent before has been processed. (Not an outline request:
+        those walk the whole project, and a defect that makes the walk leave traces in the analysis would be done to every
+        server alike before the first question is asked.)"""
+        return self.request("textDocument/codeLens", {"textDocument": {"uri": uri_of(os.path.join(self.cwd, "verif-barrier.asm"))}})
 
     def alive(self):
         return self.p.poll() is None
